@@ -131,6 +131,7 @@ def helpers(run: Run, rt):
 
 
 def _ifs_helper(run: Run, cp, fn):
+    fn = canonical_index_loops(fn)
     h = fn.name
     parents = parent_map(fn)
     ps = _params(fn)
@@ -249,6 +250,57 @@ def _ifs_helper(run: Run, cp, fn):
     _selection_loops(run, cp, outer_fn, outer_target, callables)
 
 
+class _NameSubst(ast.NodeTransformer):
+    def __init__(self, mapping):
+        self.mapping = mapping
+
+    def visit_Name(self, node):
+        if node.id in self.mapping and isinstance(node.ctx, ast.Load):
+            import copy as _copy
+            return ast.copy_location(_copy.deepcopy(self.mapping[node.id]), node)
+        return node
+
+
+def canonical_index_loops(fn: ast.FunctionDef) -> ast.FunctionDef:
+    """a copy of the function in which position-aligned loops are spelled with one index:
+         for p, x in enumerate(R): B        ->  for p in range(len(R)): B[x := R[p]]
+         for x, t in zip(R, T): B           ->  for _p in range(len(R)): if _p < len(T): B[x := R[_p], t := T[_p]]
+       (zip stops at the shorter sequence, which is what the bounds test says)"""
+    import copy as _copy
+    fn = _copy.deepcopy(fn)
+
+    class T(ast.NodeTransformer):
+        def visit_For(self, node):
+            self.generic_visit(node)
+            it = node.iter
+            if isinstance(it, ast.Call) and isinstance(it.func, ast.Name) and it.func.id == 'enumerate' and len(it.args) == 1 and \
+                    not it.keywords and isinstance(node.target, ast.Tuple) and len(node.target.elts) == 2 and \
+                    all(isinstance(e, ast.Name) for e in node.target.elts) and isinstance(it.args[0], ast.Name):
+                p_, x_ = node.target.elts[0].id, node.target.elts[1].id
+                sub = ast.Subscript(value=ast.Name(id=it.args[0].id, ctx=ast.Load()), slice=ast.Name(id=p_, ctx=ast.Load()), ctx=ast.Load())
+                body = [_NameSubst({x_: sub}).visit(b) for b in node.body]
+                new = ast.For(target=ast.Name(id=p_, ctx=ast.Store()),
+                              iter=ast.parse(f'range(len({it.args[0].id}))', mode='eval').body, body=body, orelse=node.orelse)
+                return ast.fix_missing_locations(ast.copy_location(new, node))
+            if isinstance(it, ast.Call) and isinstance(it.func, ast.Name) and it.func.id == 'zip' and len(it.args) == 2 and \
+                    not it.keywords and isinstance(node.target, ast.Tuple) and len(node.target.elts) == 2 and \
+                    all(isinstance(e, ast.Name) for e in node.target.elts) and all(isinstance(a, ast.Name) for a in it.args):
+                x_, t_ = node.target.elts[0].id, node.target.elts[1].id
+                r_, tt_ = it.args[0].id, it.args[1].id
+                p_ = '_pos'
+                m = {x_: ast.Subscript(value=ast.Name(id=r_, ctx=ast.Load()), slice=ast.Name(id=p_, ctx=ast.Load()), ctx=ast.Load()),
+                     t_: ast.Subscript(value=ast.Name(id=tt_, ctx=ast.Load()), slice=ast.Name(id=p_, ctx=ast.Load()), ctx=ast.Load())}
+                body = [_NameSubst(m).visit(b) for b in node.body]
+                guard = ast.If(test=ast.parse(f'{p_} < len({tt_})', mode='eval').body, body=body, orelse=[])
+                new = ast.For(target=ast.Name(id=p_, ctx=ast.Store()), iter=ast.parse(f'range(len({r_}))', mode='eval').body,
+                              body=[guard], orelse=node.orelse)
+                return ast.fix_missing_locations(ast.copy_location(new, node))
+            return node
+    fn = T().visit(fn)
+    ast.fix_missing_locations(fn)
+    return fn
+
+
 def _index_loops(fn):
     """for IDX in range(len(R)) loops"""
     out = []
@@ -289,6 +341,12 @@ def _selection_loops(run: Run, cp, fn, target: str, callables: set):
                       fact='criterion applied to the element of the looped range', loc=cp.loc(c))
         stores = [st for st in ast.walk(loop) if isinstance(st, ast.Assign) and any(
             isinstance(t, ast.Subscript) and isinstance(t.value, ast.Name) and t.value.id == target for t in st.targets)]
+        # or: the rejected positions are collected in a set / list (<collection>.add(i) / .append(i)) and filtered out later
+        for st in ast.walk(loop):
+            if isinstance(st, ast.Expr) and isinstance(st.value, ast.Call) and isinstance(st.value.func, ast.Attribute) and \
+                    st.value.func.attr in ('add', 'append') and isinstance(st.value.func.value, ast.Name) and \
+                    len(st.value.args) == 1 and isinstance(st.value.args[0], ast.Name) and st.value.args[0].id == idx:
+                stores.append(st)
         if not stores:
             raise AnalysisError('C12.R2', f'{h}: the selection loop does not mark deselected positions of `{target}`')
         for st in stores:
@@ -312,7 +370,10 @@ def _sentinel(run: Run, cp, fn, target, callables, sentinels, loops):
     parents = parent_map(fn)
     kinds = set()
     for s in sentinels:
-        if isinstance(s, ast.Constant) and s.value is None:
+        if isinstance(s, ast.Call) and isinstance(s.func, ast.Attribute) and s.func.attr in ('add', 'append') and \
+                isinstance(s.func.value, ast.Name):
+            kinds.add('positions:' + s.func.value.id)
+        elif isinstance(s, ast.Constant) and s.value is None:
             kinds.add('None')
         elif isinstance(s, ast.Call) and isinstance(s.func, ast.Name):
             kinds.add('instance:' + s.func.id)
@@ -329,6 +390,9 @@ def _sentinel(run: Run, cp, fn, target, callables, sentinels, loops):
             continue
         if isinstance(n, (ast.ListComp, ast.GeneratorExp)) and len(n.generators) == 1 and \
                 isinstance(n.generators[0].iter, ast.Name) and n.generators[0].iter.id == target:
+            readers.append(n)
+        if isinstance(n, (ast.ListComp, ast.GeneratorExp)) and len(n.generators) == 1 and \
+                ast.unparse(n.generators[0].iter) == f'enumerate({target})' and isinstance(n.generators[0].target, ast.Tuple):
             readers.append(n)
         if isinstance(n, ast.Call) and isinstance(n.func, ast.Name) and n.func.id == 'filter' and len(n.args) == 2 and \
                 isinstance(n.args[1], ast.Name) and n.args[1].id == target:
@@ -350,6 +414,19 @@ def _sentinel(run: Run, cp, fn, target, callables, sentinels, loops):
             continue
         gen = r.generators[0]
         var = gen.target.id if isinstance(gen.target, ast.Name) else None
+        if kind.startswith('positions:') and isinstance(gen.target, ast.Tuple) and len(gen.target.elts) == 2 and \
+                all(isinstance(e, ast.Name) for e in gen.target.elts):
+            pos_, var = gen.target.elts[0].id, gen.target.elts[1].id
+            coll = kind.split(':', 1)[1]
+            tests_ = []
+            for t in gen.ifs:
+                tests_ += list(t.values) if isinstance(t, ast.BoolOp) and isinstance(t.op, ast.And) else [t]
+            okp = any(ast.unparse(t) == f'{pos_} not in {coll}' for t in tests_)
+            run.check(okp, 'C12.R6', f'{h}[{cp.label}]/reader', 'sentinel-mismatch',
+                      f'{h} collects the rejected positions in `{coll}` but the reader does not skip exactly those positions',
+                      fact=f'position not in {coll}', loc=cp.loc(r))
+            recognised = True
+            continue
         tests = []
         for t in gen.ifs:           # `a and b` in a filter = two tests, evaluated left to right
             tests += list(t.values) if isinstance(t, ast.BoolOp) and isinstance(t.op, ast.And) else [t]
@@ -410,6 +487,7 @@ def _is_truthiness(t, var):
 
 
 def _sum_if(run: Run, cp, fn):
+    fn = canonical_index_loops(fn)
     parents = parent_map(fn)
     ps = _params(fn)
     if len(ps) < 3:
